@@ -24,6 +24,7 @@ structure EngCfg where
   pub : String
   auth : Bool
   rs : String
+  aud : String
 
 structure St where
   regs : List (String × List Registered) := []
@@ -64,7 +65,7 @@ def step (st : St) (j : Json) : St × List String :=
       | .ok (.obj kv) => kv.toList.map (fun (kv : String × Json) => (kv.1, mkRegs (match kv.2 with | .arr a => a.toList | _ => [])))
       | _ => ([] : List (String × List Registered))
     let engs := match j.getObjVal? "engines" with
-      | .ok (.obj kv) => kv.toList.map (fun (kv : String × Json) => (kv.1, ({ int := jStr kv.2 "int", pub := jStr kv.2 "pub", auth := jBool kv.2 "auth", rs := jStr kv.2 "rs" } : EngCfg)))
+      | .ok (.obj kv) => kv.toList.map (fun (kv : String × Json) => (kv.1, ({ int := jStr kv.2 "int", pub := jStr kv.2 "pub", auth := jBool kv.2 "auth", rs := jStr kv.2 "rs", aud := jStr kv.2 "aud" } : EngCfg)))
       | _ => ([] : List (String × EngCfg))
     ({ regs := regs, engines := engs, keys := (jStrs j "keys").map (fun c => { comment := c }), aud := jStr j "aud", now := jInt j "now" }, ["cfg"])
   | "req" =>
@@ -81,7 +82,7 @@ def step (st : St) (j : Json) : St × List String :=
           | .ok (.obj kv) => kv.toList.map (fun (kv : String × Json) => (unhexStr kv.1, kv.2.getBool?.toOption.getD false))
           | _ => ([] : List (Str × Bool))
         let authOK := fun (a : Str) => match authMap.find? (·.1 = a) with | some (_, v) => v | none => false
-        let tok := tokenDecision Facts.C04.policy st.aud st.keys st.now (bytesOf (jStr j "hdr")) (parseAnalysis (jObj j "tok"))
+        let tok := tokenDecision Facts.C04.policy e.aud st.keys st.now (bytesOf (jStr j "hdr")) (parseAnalysis (jObj j "tok"))
         let resp := serveConn authOK Facts.C04.authSelector Facts.C04.authPath e.auth rs tok (jStr j "m") (unhexStr (jStr j "t"))
         (st, [showResp resp])
   | "tok" =>
@@ -96,6 +97,16 @@ def step (st : St) (j : Json) : St × List String :=
     match tokenDecision Facts.C04.policy (jStr j "aud") keys (jInt j "now") hdr (parseAnalysis (jObj j "tok")) with
     | .granted u => (st, ["granted user:" ++ u])
     | .denied => (st, ["denied"])
+  | "configure" =>
+    -- keys file states: ok / empty parse fine (an empty file gives zero keys), missing / garbage make New(FromFile) fail
+    let fileOK := jStr j "b" == "ok" || jStr j "b" == "empty"
+    (st, [match configureAuth (jStr j "a") fileOK with | .error => "error" | _ => "ok"])
+  | "akeys" =>
+    let ls := (jArr j "lines").map (fun l =>
+      let kind := match jStr l "kind" with
+        | "rsa" => KeyKind.rsa (jNat l "bits") | "ecdsa" => .ecdsa | "ed25519" => .ed25519 | _ => .other
+      ({ blank := jBool l "blank", kind := kind, comment := jStr l "comment" } : KeyLine))
+    (st, [String.intercalate "|" ((authorizedKeysOf Facts.C04.minimumRSAKeySize ls).map (·.comment))])
   | "matchesPath" => (st, [toString (matchesPath (unhexStr (jStr j "a")) (unhexStr (jStr j "b")))])
   | "bindOf" => (st, [hexStr (getBindFromPath (unhexStr (jStr j "a")))])
   | o => (st, ["bad-op:" ++ o])
